@@ -98,6 +98,8 @@ EXTRA = {
   '//@   requires {C02} [auth-middleware-installed-the-body-reader] utils.IsBigDataAction(ctx) ==> ctx.Locals("body-reader") != nil',
  ] + [f'//@   at-call backend.Backend.{m} {{C02}} [not-deferred-{m}] requires !utils.IsBigDataAction(ctx)' for m in C02_BODYLESS] + [
   '//@   at-call backend.Backend.PutObject {C02} [body-reader-handed-to-backend] requires utils.IsBigDataAction(ctx) ==> $1.Body == ctx.Locals("body-reader")',
+  # C03: tags sent with the object are written like PutObjectTagging writes them and need that action as well
+  '//@   at-call backend.Backend.PutObject {C03} [tags-with-the-object-need-the-tagging-action] requires ($1.Tagging != nil && *$1.Tagging != "") ==> granted($recv, acl, acct, isRoot, *$1.Bucket, *$1.Key, auth.PutObjectTaggingAction, auth.PermissionWrite)',
   '//@   at-call backend.Backend.UploadPart {C02} [body-reader-handed-to-backend-part] requires utils.IsBigDataAction(ctx) ==> $1.Body == ctx.Locals("body-reader")',
   # C06: the length handed to the backend is the decoded length when the client declared one (the middleware then decodes the
   # body), otherwise the Content-Length (absent = 0) — whatever else the request carries
